@@ -14,7 +14,7 @@ REBASED = {"C02b": "context moved by the C16 fix (3a127e2)", "C05b": "rewritten 
            "C19a": "rewritten onto the C19 fix (080f984)", "C19b": "rewritten onto the C19 fix (080f984)",
            "C15b": "rewritten onto the C15 fix (23b5ba4)"}
 ROUND2 = {"C16a", "C16c"} | {p + v for p in ("C01", "C04", "C08", "C11", "C12", "C15", "C17", "C19") for v in "cd"}
-ROUND3 = {p + v for p in ("C05", "C06", "C07", "C10", "C13", "C14", "C18", "C20") for v in "cd"}
+ROUND3 = {p + v for p in ("C02", "C03", "C05", "C06", "C07", "C09", "C10", "C13", "C14", "C18", "C20") for v in "cd"}
 NOTES = {
     "C03b": "correct over the reals, wrong only through binary64 rounding: invisible in real mode (DESIGN 11.3)",
     "C08b": "correct over the reals, wrong only through binary64 rounding: invisible in real mode (DESIGN 11.3)",
